@@ -13,6 +13,7 @@ generated `*_smooth` theorems.
 -/
 set_option linter.unusedSimpArgs false
 set_option linter.unusedVariables false
+set_option linter.unusedSectionVars false
 namespace PdeVerif.Stencil
 open PdeVerif
 
@@ -470,5 +471,62 @@ theorem cylVectorLaplace_z_even_smooth_uniform (F : List Int → ℝ → ℝ →
       (even_d1_error_div_radius (fun s => F [1] s ζ) (hFr ζ) (fun x => heven x ζ) M4r (fun t => hM4r t ζ) ρ h hh hcell))
       (d2_fun_taylor (fun s => F [1] s ζ) (hFr ζ) M4r (fun t => hM4r t ζ) ρ h hh.ne'))
     (le_of_eq (by ring))
+
+/-! ### in the driver's terms: radius function `centre r_min h`, valid cells `i ≥ 1` -/
+
+section
+variable {K : Type} [Field K] [CharZero K]
+/-- the radius function of the driver (`Drv/C01.lean`: `centre r_min dr`, cell centres of the padded array) is the
+lattice `x0 + n h` of the theorems with `x0 = r_min - dr/2` -/
+theorem centre_eq_lattice (rmin dr : K) : centre rmin dr = fun n : Int => (rmin - dr / 2) + (n:K) * dr := by
+  funext n
+  simp only [centre]
+  push_cast
+  ring
+end
+
+/-- every valid cell (`i ≥ 1`) of a grid with `r_min ≥ 0` has its centre at least half a cell from the axis -/
+theorem centre_ge_half (rmin h : ℝ) (hrmin : 0 ≤ rmin) (hh : 0 < h) (i : Int) (hi : 1 ≤ i) :
+    h / 2 ≤ centre rmin h i := by
+  simp only [centre]
+  push_cast
+  have : (1:ℝ) ≤ (i:ℝ) := by exact_mod_cast hi
+  nlinarith
+
+/-- **the default (conservative) Laplacian of `SphericalSymGrid` in the driver's terms**: radius function
+`centre r_min h`, every `r_min ≥ 0` (full sphere or hole), every valid cell `i ≥ 1`, every C4 field even in `r` -/
+theorem sphLaplace_conservative_grid_uniform (F : List Int → ℝ → ℝ) (hF : ContDiff ℝ 4 (F []))
+    (heven : ∀ x, F [] (-x) = F [] x) (M4 : ℝ) (hM4 : ∀ y, |iteratedDeriv 4 (F []) y| ≤ M4) (rmin h : ℝ)
+    (hrmin : 0 ≤ rmin) (hh : 0 < h) (i : Int) (hi : 1 ≤ i) :
+    |sphLaplace true (centre rmin h) h (sampleAx1 F (rmin - h / 2) h) i
+        - (iteratedDeriv 2 (F []) (centre rmin h i) + 2 * iteratedDeriv 1 (F []) (centre rmin h i) / centre rmin h i)|
+      ≤ 17 / 12 * M4 * h^2 := by
+  have hc := centre_ge_half rmin h hrmin hh i hi
+  rw [centre_eq_lattice] at hc ⊢
+  exact sphLaplace_conservative_even_smooth_uniform F hF heven M4 hM4 (rmin - h / 2) h hh i _ rfl hc
+
+/-- the Laplacian of `PolarSymGrid` in the driver's terms, every valid cell, every C4 field even in `r` -/
+theorem polarLaplace_grid_uniform (F : List Int → ℝ → ℝ) (hF : ContDiff ℝ 4 (F []))
+    (heven : ∀ x, F [] (-x) = F [] x) (M4 : ℝ) (hM4 : ∀ y, |iteratedDeriv 4 (F []) y| ≤ M4) (rmin h : ℝ)
+    (hrmin : 0 ≤ rmin) (hh : 0 < h) (i : Int) (hi : 1 ≤ i) :
+    |polarLaplace (centre rmin h) h (sampleAx1 F (rmin - h / 2) h) i
+        - (iteratedDeriv 2 (F []) (centre rmin h i) + iteratedDeriv 1 (F []) (centre rmin h i) / centre rmin h i)|
+      ≤ 7 / 12 * M4 * h^2 := by
+  have hc := centre_ge_half rmin h hrmin hh i hi
+  rw [centre_eq_lattice] at hc ⊢
+  exact polarLaplace_even_smooth_uniform F hF heven M4 hM4 (rmin - h / 2) h hh i _ rfl hc
+
+/-- the default (conservative) divergence of `SphericalSymGrid` in the driver's terms, every valid cell, every C3
+radial component odd in `r` -/
+theorem sphDivergence_conservative_grid_uniform (F : List Int → ℝ → ℝ) (hF : ContDiff ℝ 3 (F [0]))
+    (hodd : ∀ x, F [0] (-x) = -F [0] x) (M3 : ℝ) (hM3 : ∀ y, |iteratedDeriv 3 (F [0]) y| ≤ M3) (rmin h : ℝ)
+    (hrmin : 0 ≤ rmin) (hh : 0 < h) (i : Int) (hi : 1 ≤ i) :
+    |sphDivergence true .central (centre rmin h) h (sampleAx1 F (rmin - h / 2) h) i
+        - (iteratedDeriv 1 (F [0]) (centre rmin h i) + 2 * F [0] (centre rmin h i) / centre rmin h i)|
+      ≤ 11 / 6 * M3 * h^2 := by
+  have hc := centre_ge_half rmin h hrmin hh i hi
+  rw [centre_eq_lattice] at hc ⊢
+  exact sphDivergence_conservative_odd_smooth_uniform F hF hodd M3 hM3 (rmin - h / 2) h hh i _ rfl hc
+
 
 end PdeVerif.Stencil
